@@ -181,3 +181,28 @@ package server
 //@   frame-by-effects
 //@   ensures [within-radius] forall(k, 0, len(nearbys), roamOK(fence, obj, nearbys[k]))
 //@   loop 1 invariant forall(k, 0, len(nearbys), roamOK(fence, obj, nearbys[k]))
+
+// ---- request parsing layer: no input can make it panic (C16) ---------------------
+//@ func readcrlfline
+//@   nopanic
+//@   modifies nothing
+//@   ensures ok ==> len(packet) >= 2 && (line == "") == (packet[0] == '\r' && packet[1] == '\n') && len(leftover) < len(packet)
+//@   ensures !ok ==> leftover == packet
+//@   loop 1 invariant 1 <= i && forall(j, 1, i, !(packet[j] == '\n' && packet[j-1] == '\r'))
+//@ func headerValue
+//@   nopanic
+//@   modifies nothing
+//@   ensures result == -1 || (0 <= result && result <= len(header))
+//@ func readNativeMessageLine
+//@   nopanic
+//@   ensures result0 != nil && result1 == nil
+//@ func readNextHTTPCommand
+//@   nopanic
+//@   requires msg != nil && len(packet) >= 1 && packet[0] != '\r'
+//@   loop 1 invariant (len(headers) == 0 && packet == opacket) || len(headers) >= 1
+//@ func readNextCommand
+//@   nopanic
+//@   requires msg != nil && len(packet) > 0
+//@ func PipelineReader.ReadMessages
+//@   nopanic
+//@   requires rd != nil
